@@ -65,8 +65,10 @@ func (q *MultiOpQueryer) Subscribe(req *requests.Request, closeCh <-chan struct{
 			common.VerifPoint(vid, "sub.reader.exit")
 			conn.Close()
 			// indicate that it's done
-			common.VerifPoint(vid, "sub.reader.exit.nil")
-			resCh <- nil
+			select {
+			case resCh <- nil:
+			case <-closeCh:
+			}
 		}()
 
 		bInitMsg, err := json.Marshal(requests.ClientSubMsg{
@@ -115,8 +117,11 @@ func (q *MultiOpQueryer) Subscribe(req *requests.Request, closeCh <-chan struct{
 				if innerErr := json.Unmarshal(msg, &serverErrorResp); innerErr != nil {
 					return
 				}
-				resCh <- &requests.Response{
-					Errors: serverErrorResp.Payload,
+				select {
+				case resCh <- &requests.Response{Errors: serverErrorResp.Payload}:
+				case <-closeCh:
+					// nobody listens any more
+					return
 				}
 				continue
 			}
@@ -128,9 +133,12 @@ func (q *MultiOpQueryer) Subscribe(req *requests.Request, closeCh <-chan struct{
 				requests.SubError:
 				return
 			case requests.SubData:
-				common.VerifPoint(vid, "sub.reader.send")
-				resCh <- serverResp.Payload
-				common.VerifPoint(vid, "sub.reader.sent")
+				select {
+				case resCh <- serverResp.Payload:
+				case <-closeCh:
+					// nobody listens any more
+					return
+				}
 			}
 		}
 	}()
